@@ -204,6 +204,7 @@ pub struct Ctx {
     evidence_out: PathBuf,
     inconclusive: Vec<String>,
     only_sub: Option<String>,
+    shard: Option<(u64, u64)>,
 }
 
 impl Ctx {
@@ -280,6 +281,10 @@ impl Ctx {
             evidence_out,
             inconclusive: Vec::new(),
             only_sub,
+            shard: std::env::var("VERIF_SHARD").ok().and_then(|v| {
+                let mut it = v.split('/');
+                Some((it.next()?.parse().ok()?, it.next()?.parse().ok()?))
+            }),
         }
     }
 
@@ -326,6 +331,12 @@ impl Ctx {
         if self.violations >= 5 {
             // enough reproductions; do not spend the budget re-finding the same defect
             return false;
+        }
+        if let Some((i, n)) = self.shard {
+            // thorough tier: the driver runs n processes in parallel, each owning the sub-checks that hash to it
+            if hash_of(sub) % n != i {
+                return false;
+            }
         }
         self.only_sub.as_deref().map(|s| s == sub).unwrap_or(true)
     }
@@ -385,6 +396,9 @@ impl Ctx {
                     std::process::exit(1);
                 }
             }
+        }
+        if matches!(self.shard, Some((i, _)) if i != 0) {
+            return; // the regression tier runs in shard 0 only
         }
         let dir = self.root.join("replays").join(&self.id);
         let mut files: Vec<PathBuf> = match std::fs::read_dir(&dir) {
@@ -510,6 +524,31 @@ impl Ctx {
         F: Fn(&S::Value) -> CaseResult,
     {
         self.prop_cfg(name, kind, cases, 50_000, strat, f)
+    }
+
+    /// `prop` split into `parts` independently seeded sub-checks `name#k` (so that the thorough tier can run
+    /// them in parallel shards); with parts == 1 it is exactly `prop`.
+    pub fn prop_split<S, F>(&mut self, name: &str, kind: &str, cases: u64, parts: u64, strat: S, f: F)
+    where
+        S: Strategy + Clone,
+        S::Value: Hash + Serialize + Clone + Debug,
+        F: Fn(&S::Value) -> CaseResult,
+    {
+        if parts <= 1 {
+            return self.prop(name, kind, cases, strat, f);
+        }
+        for k in 0..parts {
+            self.prop(&format!("{}#{}", name, k), kind, (cases + parts - 1) / parts, strat.clone(), &f);
+        }
+    }
+
+    /// number of pieces large sub-checks are split into (1 in the quick tier)
+    pub fn parts(&self) -> u64 {
+        if self.thorough() {
+            8
+        } else {
+            1
+        }
     }
 
     /// `prop` with an explicit cap on shrink iterations (expensive or schedule-dependent cases).
